@@ -195,7 +195,7 @@ def oracle_c22(w, ref, res, case):
     seen = {}
     for a in ai:
         # only relations whose counter rule is still part of the (possibly minimised) program are judged
-        if not any(l.strip().startswith(a["rel"] + "(") and "autoinc()" in l.split(":-")[0] for l in w.text.split("\n")):
+        if not a.get("always") and not any(l.strip().startswith(a["rel"] + "(") and "autoinc()" in l.split(":-")[0] for l in w.text.split("\n")):
             continue
         rows = res["outputs"].get(a["rel"])
         sib = res["outputs"].get(a["sibling"])
